@@ -35,8 +35,8 @@ type c33Stage struct {
 	O      string   `json:"o,omitempty"`
 	E      string   `json:"e,omitempty"`
 	File   int      `json:"file,omitempty"`
-	Redirs []string `json:"redirs,omitempty"` // out err null !out !err !null
-	Link   string   `json:"link"`             // pipe|semi
+	Redirs []string `json:"redirs,omitempty"` // out err null !out !err !null  p0..p3 !p0..!p3 (user-named pipes)
+	Link   string   `json:"link"`             // pipe|qpipe|semi
 }
 
 type c33File struct {
@@ -48,6 +48,7 @@ type c33Case struct {
 	Stages []c33Stage `json:"stages"`
 	Files  []c33File  `json:"files,omitempty"` // initial contents
 	Wrap   string     `json:"wrap,omitempty"`  // "" | func
+	Mk     bool       `json:"mk,omitempty"`    // named pipes are created by a leading `pipe names` command of the block itself
 }
 
 type c33Obs struct {
@@ -56,6 +57,7 @@ type c33Obs struct {
 	Err        string    `json:"err"`
 	Complaints int       `json:"complaints"`
 	Files      []c33File `json:"files"`
+	Pipes      []c33File `json:"pipes,omitempty"` // contents of the user-named pipes afterwards
 	Timeout    bool      `json:"timeout,omitempty"`
 	Block      string    `json:"block"`
 }
@@ -126,13 +128,30 @@ var c33Counter int
 
 const c33Complaint = "Invalid usage of named pipes: "
 
-func c33Block(c c33Case, dir string) string {
+// c33PipeNo: "p2" / "!p2" -> 2, true; anything else -> false
+func c33PipeNo(r string) (int, bool) {
+	r = strings.TrimPrefix(r, "!")
+	if len(r) == 2 && r[0] == 'p' && r[1] >= '0' && r[1] <= '3' {
+		return int(r[1] - '0'), true
+	}
+	return 0, false
+}
+
+func c33Block(c c33Case, dir string, pipePrefix string) string {
 	var b strings.Builder
 	for i, s := range c.Stages {
-		piped := i > 0 && c.Stages[i-1].Link == "pipe"
+		piped := i > 0 && c.Stages[i-1].Link != "semi"
 		rd := ""
 		for _, r := range s.Redirs {
-			rd += " <" + r + ">"
+			if k, ok := c33PipeNo(r); ok {
+				bang := ""
+				if strings.HasPrefix(r, "!") {
+					bang = "!"
+				}
+				rd += fmt.Sprintf(" <%s%s%d>", bang, pipePrefix, k)
+			} else {
+				rd += " <" + r + ">"
+			}
 		}
 		switch s.Act {
 		case "emit":
@@ -153,8 +172,10 @@ func c33Block(c c33Case, dir string) string {
 		default:
 			die("C33: bad act %q", s.Act)
 		}
-		if i+1 < len(c.Stages) || s.Link == "pipe" {
-			if s.Link == "pipe" {
+		if i+1 < len(c.Stages) || s.Link != "semi" {
+			if s.Link == "qpipe" {
+				b.WriteString(" ? ")
+			} else if s.Link == "pipe" {
 				next := ""
 				if i+1 < len(c.Stages) {
 					next = c.Stages[i+1].Act
@@ -202,8 +223,31 @@ func (c33) Run(raw json.RawMessage) Result {
 			used[s.File] = true
 		}
 	}
-	block := c33Block(c, dir)
 	c33Counter++
+	pipePrefix := fmt.Sprintf("c33p%dx%dx", os.Getpid(), c33Counter)
+	usedPipes := map[int]bool{}
+	for _, s := range c.Stages {
+		for _, r := range s.Redirs {
+			if k, ok := c33PipeNo(r); ok {
+				usedPipes[k] = true
+			}
+		}
+	}
+	mk := ""
+	for k := 0; k < 4; k++ {
+		if !usedPipes[k] {
+			continue
+		}
+		if c.Mk {
+			mk += fmt.Sprintf(" %s%d", pipePrefix, k)
+		} else if err := lang.GlobalPipes.CreatePipe(fmt.Sprintf("%s%d", pipePrefix, k), "std", ""); err != nil { // what `pipe name` does
+			die("C33: cannot create named pipe: %v", err)
+		}
+	}
+	block := c33Block(c, dir, pipePrefix)
+	if mk != "" {
+		block = "pipe" + mk + "; " + block
+	}
 	if c.Wrap == "func" {
 		name := fmt.Sprintf("c33f_%d_%d", os.Getpid(), c33Counter)
 		block = "function " + name + " { " + block + " }; " + name
@@ -243,9 +287,19 @@ func (c33) Run(raw json.RawMessage) Result {
 		}
 		o.Out, o.Err = hex.EncodeToString(bo), hex.EncodeToString(be)
 	}
-	ids := []int{}
-	for id := range used {
-		ids = append(ids, id)
+	for k := 0; k < 4; k++ {
+		if !usedPipes[k] {
+			continue
+		}
+		name := fmt.Sprintf("%s%d", pipePrefix, k)
+		if io, err := lang.GlobalPipes.Get(name); err == nil {
+			io.Close()
+			if !o.Timeout {
+				b, _ := io.ReadAll()
+				o.Pipes = append(o.Pipes, c33File{k, hex.EncodeToString(b)})
+			}
+			lang.GlobalPipes.Delete(name)
+		}
 	}
 	for id := 0; id < 8; id++ {
 		if !used[id] {
@@ -256,7 +310,6 @@ func (c33) Run(raw json.RawMessage) Result {
 			o.Files = append(o.Files, c33File{id, hex.EncodeToString(b)})
 		}
 	}
-	_ = ids
 
 	// ---- Coq term ----
 	stages := make([]string, len(c.Stages))
@@ -279,6 +332,13 @@ func (c33) Run(raw json.RawMessage) Result {
 		rs := make([]string, len(s.Redirs))
 		for j, r := range s.Redirs {
 			rs[j] = map[string]string{"out": "R_out", "err": "R_err", "null": "R_null", "!out": "R_bout", "!err": "R_berr", "!null": "R_bnull"}[r]
+			if k, ok := c33PipeNo(r); ok {
+				if strings.HasPrefix(r, "!") {
+					rs[j] = coqlit.App("R_bpipe", coqlit.N(uint64(k)))
+				} else {
+					rs[j] = coqlit.App("R_pipe", coqlit.N(uint64(k)))
+				}
+			}
 			if rs[j] == "" {
 				die("C33: bad redirection %q", r)
 			}
@@ -289,6 +349,8 @@ func (c33) Run(raw json.RawMessage) Result {
 		link := "Semi"
 		if s.Link == "pipe" {
 			link = "Pipe"
+		} else if s.Link == "qpipe" {
+			link = "QPipe"
 		}
 		stages[i] = coqlit.Record("s_act", act, "s_redirs", coqlit.List(rs), "s_link", link)
 	}
@@ -310,13 +372,22 @@ func (c33) Run(raw json.RawMessage) Result {
 	}
 	coq := coqlit.Record("c_stages", coqlit.List(stages), "c_files", fl(c.Files),
 		"c_obs", coqlit.Record("o_kind", kind, "o_out", coqlit.Bytes(string(ob)), "o_err", coqlit.Bytes(string(eb)),
-			"o_complaints", coqlit.Nat(o.Complaints), "o_files", fl(o.Files)))
+			"o_complaints", coqlit.Nat(o.Complaints), "o_files", fl(o.Files), "o_pipes", fl(o.Pipes)))
 	class := fmt.Sprintf("n%d", len(c.Stages))
 	if nred > 0 {
 		class += "/redir"
 	}
 	if nfile > 0 {
 		class += "/file"
+	}
+	for _, st := range c.Stages {
+		if st.Link == "qpipe" {
+			class += "/qpipe"
+			break
+		}
+	}
+	if len(usedPipes) > 0 {
+		class += "/named"
 	}
 	if c.Wrap != "" {
 		class += "/" + c.Wrap
@@ -377,6 +448,15 @@ func c33RandRedirs(r *rand.Rand) []string {
 			rs = append(rs, c33Redirs[r.Intn(6)])
 		}
 	}
+	for i := range rs { // now and then a user-named pipe instead
+		if r.Intn(6) == 0 {
+			bang := ""
+			if strings.HasPrefix(rs[i], "!") {
+				bang = "!"
+			}
+			rs[i] = fmt.Sprintf("%sp%d", bang, r.Intn(3))
+		}
+	}
 	return rs
 }
 
@@ -390,6 +470,9 @@ func c33RandCase(r *rand.Rand) c33Case {
 		s := c33Stage{Act: "emit", Link: "semi"}
 		if i+1 < n && r.Intn(2) == 0 {
 			s.Link = "pipe"
+			if r.Intn(5) == 0 {
+				s.Link = "qpipe"
+			}
 		}
 		k := r.Intn(10)
 		switch {
@@ -417,14 +500,41 @@ func c33RandCase(r *rand.Rand) c33Case {
 	if r.Intn(4) == 0 {
 		c.Wrap = "func"
 	}
+	c.Mk = r.Intn(2) == 0
 	return c
+}
+
+// c33Firsts: the redirection that applies to stdout / stderr (the first of each class).
+func c33Firsts(rs []string) (out, er string) {
+	for _, r := range rs {
+		if strings.HasPrefix(r, "!") {
+			if er == "" {
+				er = r
+			}
+		} else if out == "" {
+			out = r
+		}
+	}
+	return
+}
+
+// c33FeedsNext: does the command write into the stdin of the command after its pipe?
+func c33FeedsNext(s c33Stage) bool {
+	out, er := c33Firsts(s.Redirs)
+	switch s.Link {
+	case "pipe": // stdout is piped; `<!out>` joins stderr to it
+		return out == "" || out == "out" || er == "!out"
+	case "qpipe": // stderr is piped
+		return er == "" || er == "!err"
+	}
+	return false
 }
 
 // c33Derace keeps the block's output order deterministic.  A command after a pipe
 // normally starts writing only when the command before it has finished (c33emit reads
-// all of its stdin first).  When the command before it sends its stdout somewhere else
-// (<err>, <null>) that stdin is closed at once and both run side by side, so the
-// commands further down that pipeline are made silent.
+// all of its stdin first).  When the command before it sends the piped stream somewhere
+// else (<err>, <null>, a named pipe, `<!out>` before `?`) that stdin is closed at once and
+// both run side by side, so the commands further down that pipeline are made silent.
 func c33Derace(c c33Case) c33Case {
 	racing := false
 	inChain := map[int]bool{} // `>`/`>>` warn on stderr when a file is named twice in one pipeline: keep them distinct
@@ -436,27 +546,37 @@ func c33Derace(c c33Case) c33Case {
 			}
 			inChain[s.File] = true
 		}
-		if s.Link != "pipe" {
-			inChain = map[int]bool{}
-		}
 		if racing && s.Act == "emit" {
 			s.O, s.E = "", ""
 		}
-		if s.Link != "pipe" {
+		if s.Link == "qpipe" {
+			// not modelled: ` ? >> file` does not parse; a "specified multiple times" complaint of a
+			// `?`-linked command is written into the pipe (its stderr) rather than to the block's stderr
+			nOut, nErr := 0, 0
+			for _, r := range s.Redirs {
+				if strings.HasPrefix(r, "!") {
+					nErr++
+				} else {
+					nOut++
+				}
+			}
+			if nOut > 1 || nErr > 1 || (i+1 < len(c.Stages) && c.Stages[i+1].Act != "emit") {
+				s.Link = "pipe"
+			}
+		}
+		if s.Link == "semi" {
+			inChain = map[int]bool{}
 			racing = false
 			continue
 		}
-		for _, r := range s.Redirs {
-			if !strings.HasPrefix(r, "!") {
-				if r == "err" || r == "null" {
-					racing = true
-				}
-				break
-			}
+		if !c33FeedsNext(*s) {
+			racing = true
 		}
 	}
 	return c
 }
+
+var c33Tokens = []string{"out", "err", "null", "!out", "!err", "!null", "p0", "!p0", "p1", "!p1"}
 
 func (c33) Gen(seed int64, tier string, emit0 func(any)) {
 	emit := func(x any) {
@@ -466,43 +586,53 @@ func (c33) Gen(seed int64, tier string, emit0 func(any)) {
 		}
 		emit0(x)
 	}
-	O, E := hex.EncodeToString([]byte("out-bytes\n")), hex.EncodeToString([]byte("ERR-BYTES\n"))
-	// exhaustive: one command with every combination of (stdout redirection, stderr redirection)
-	// in both orders, in every position: alone, before `;`, before a pipe, after a pipe
-	outs := []string{"", "out", "err", "null"}
-	errs := []string{"", "!out", "!err", "!null"}
-	for _, ro := range outs {
-		for _, re := range errs {
-			for order := 0; order < 2; order++ {
-				var rs []string
-				if ro != "" {
-					rs = append(rs, ro)
-				}
-				if re != "" {
-					rs = append(rs, re)
-				}
-				if order == 1 {
-					if len(rs) < 2 {
-						continue
-					}
-					rs[0], rs[1] = rs[1], rs[0]
-				}
-				st := c33Stage{Act: "emit", O: O, E: E, Redirs: rs, Link: "semi"}
-				other := c33Stage{Act: "emit", O: hex.EncodeToString([]byte("2nd-out\n")), E: hex.EncodeToString([]byte("2ND-ERR\n")), Link: "semi"}
-				for _, wrap := range []string{"", "func"} {
-					emit(c33Case{Stages: []c33Stage{st}, Wrap: wrap})
-					emit(c33Case{Stages: []c33Stage{st, other}, Wrap: wrap})
-					emit(c33Case{Stages: []c33Stage{other, st}, Wrap: wrap})
-					sp := st
-					sp.Link = "pipe"
-					emit(c33Case{Stages: []c33Stage{sp, other}, Wrap: wrap})
-					op := other
-					op.Link = "pipe"
-					emit(c33Case{Stages: []c33Stage{op, st}, Wrap: wrap})
-					emit(c33Case{Stages: []c33Stage{sp, {Act: "trunc", File: 0, Link: "semi"}}, Files: []c33File{{0, "6f6c64"}}, Wrap: wrap})
-					emit(c33Case{Stages: []c33Stage{sp, {Act: "append", File: 0, Link: "semi"}}, Files: []c33File{{0, "6f6c64"}}, Wrap: wrap})
-				}
+	hx := func(s string) string { return hex.EncodeToString([]byte(s)) }
+	O, E := hx("out-bytes\n"), hx("ERR-BYTES\n")
+	other := c33Stage{Act: "emit", O: hx("2nd-out\n"), E: hx("2ND-ERR\n"), Link: "semi"}
+	// exhaustive: every redirection list of length 0, 1, 2 (10 tokens incl. two user-named pipes, all ordered
+	// pairs) and 3 (the six standard tokens, all ordered triples) on one command in every position:
+	// alone, before `;`, after `;`, before `|`, before ` ? `, after `|`, after ` ? `
+	var lists [][]string
+	lists = append(lists, nil)
+	for _, a := range c33Tokens {
+		lists = append(lists, []string{a})
+		for _, b := range c33Tokens {
+			lists = append(lists, []string{a, b})
+		}
+	}
+	for _, a := range c33Tokens[:6] {
+		for _, b := range c33Tokens[:6] {
+			for _, c := range c33Tokens[:6] {
+				lists = append(lists, []string{a, b, c})
 			}
+		}
+	}
+	for _, t := range [][]string{{"err", "p0", "!out"}, {"p0", "!p0", "err"}, {"!p1", "p1", "!out"}, {"p0", "p1", "!p0"}, {"!p0", "!out", "p0"}, {"null", "!p0", "p0"}} {
+		lists = append(lists, t)
+	}
+	for li, rs := range lists {
+		st := c33Stage{Act: "emit", O: O, E: E, Redirs: rs, Link: "semi"}
+		sp, sq, op, oq := st, st, other, other
+		sp.Link, sq.Link, op.Link, oq.Link = "pipe", "qpipe", "pipe", "qpipe"
+		wrap := ""
+		if li%5 == 4 {
+			wrap = "func"
+		}
+		emit(c33Case{Stages: []c33Stage{st}, Wrap: wrap, Mk: li%2 == 1})
+		emit(c33Case{Stages: []c33Stage{sp, other}, Wrap: wrap})
+		emit(c33Case{Stages: []c33Stage{sq, other}, Wrap: wrap})
+		emit(c33Case{Stages: []c33Stage{op, st}, Wrap: wrap})
+		if len(rs) <= 2 {
+			emit(c33Case{Stages: []c33Stage{st, other}, Wrap: wrap})
+			emit(c33Case{Stages: []c33Stage{other, st}, Wrap: wrap})
+			emit(c33Case{Stages: []c33Stage{oq, st}, Wrap: wrap})
+			// the command after this one has a ` ? ` pipe of its own
+			emit(c33Case{Stages: []c33Stage{st, oq, other}, Wrap: wrap})
+			emit(c33Case{Stages: []c33Stage{sp, oq, other}, Wrap: wrap})
+		}
+		if len(rs) <= 1 || li%7 == 0 {
+			emit(c33Case{Stages: []c33Stage{sp, {Act: "trunc", File: 0, Link: "semi"}}, Files: []c33File{{0, "6f6c64"}}, Wrap: wrap})
+			emit(c33Case{Stages: []c33Stage{sq, {Act: "append", File: 0, Link: "semi"}}, Files: []c33File{{0, "6f6c64"}}, Wrap: wrap})
 		}
 	}
 	r := rand.New(rand.NewSource(seed))
